@@ -184,6 +184,15 @@ def impl_nmap_spec(s, tab):
     return [v, _run_gen(iter_nmap_range(s))]
 
 
+def impl_nmap_cidr_probe(s, tab):
+    """a CIDR target of any size: the validity flag and what islice(iter_nmap_range(s), 3) sees"""
+    import itertools
+    from netaddr.ip.nmap import valid_nmap_range, iter_nmap_range
+    v = valid_nmap_range(s)
+    assert v is True or v is False
+    return [v, _run_gen(itertools.islice(iter_nmap_range(s), 3))]
+
+
 def impl_nmap_iter(specs, tab):
     from netaddr.ip.nmap import iter_nmap_range
     return _run_gen(iter_nmap_range(*specs))
@@ -195,7 +204,7 @@ IMPL = {
     "cidr_to_glob": impl_cidr_to_glob, "ipglob": impl_ipglob, "ipglob_set": impl_ipglob_set,
     "ipglob_setstate": impl_ipglob_setstate, "pton4": impl_pton4, "nmap_octets": impl_nmap_octets,
     "expand_partial": impl_expand_partial, "ipnetwork_str": impl_ipnetwork_str, "nmap_spec": impl_nmap_spec,
-    "nmap_iter": impl_nmap_iter,
+    "nmap_iter": impl_nmap_iter, "nmap_cidr_probe": impl_nmap_cidr_probe,
 }
 IMPL.update(pystr_cases.IMPL)
 
@@ -537,6 +546,35 @@ def orc_nmap_spec(args, res):
     return check_gen([s], tab, g)
 
 
+def orc_nmap_cidr_probe(args, res):
+    s, tab = args
+    if isinstance(res, Exn):
+        return "valid_nmap_range/iter_nmap_range harness failure %s" % res.name
+    v, (items, err) = res
+    if v != (err is None):
+        return "valid_nmap_range(%r) = %r but iter_nmap_range %s" % (s, v, "raised %s" % err.name if err else "succeeded")
+    if err is not None and items:
+        return "iter_nmap_range(%r) raised after yielding" % s
+    if err is not None and err.name not in ("ValueError", "AddrFormatError", "TypeError"):
+        return "iteration raised %s" % err.name
+    m = _RE_CIDR.fullmatch(s)
+    if not m:
+        return None
+    o = [int(x) for x in m.groups()[:4]]
+    p = int(m.group(5))
+    if max(o) > 255:
+        return None
+    if not 0 < p < 33:
+        return None if err is not None else "prefix %d accepted" % p
+    if err is not None:
+        return "well-formed IPv4 CIDR %r refused (%s)" % (s, err.name)
+    first = unocts(o) - unocts(o) % 2 ** (32 - p)
+    exp = [[4, x] for x in range(first, first + min(3, 2 ** (32 - p)))]
+    if items != exp:
+        return "first addresses %r, the block starts %r" % (items, exp)
+    return None
+
+
 def orc_nmap_iter(args, res):
     specs, tab = args
     if isinstance(res, Exn):
@@ -578,6 +616,7 @@ ORACLE = {
     "ipglob_set": orc_ipglob_set,
     "nmap_spec": orc_nmap_spec,
     "nmap_iter": orc_nmap_iter,
+    "nmap_cidr_probe": orc_nmap_cidr_probe,
     "nmap_octets": orc_nmap_octets,
     "pton4": orc_pton4,
 }
@@ -999,6 +1038,14 @@ def cases(rng, tier):
                 continue
             yield ("ipnetwork_str", [s, table_for([s])], "nmap_cidr")
             yield ("expand_partial", [s.split("/", 1)[0]], "nmap_cidr")
+    # CIDR targets of every size (too large to enumerate: validity flag + first three addresses)
+    probes = [s for s in specs if "/" in s]
+    for _ in range(400 if quick else 8000):
+        pfx = rng.choice([0, 1, 1, 2, 3, 7, 8, 9, 15, 16, 17, 19, 20, 24, 30, 31, 32, 33, rng.randrange(0, 35)])
+        o = [rng.choice([0, 1, 10, 127, 128, 192, 255, rng.randrange(256)]) for _ in range(4)]
+        probes.append("%d.%d.%d.%d/%d" % (o[0], o[1], o[2], o[3], pfx))
+    for s in probes:
+        yield ("nmap_cidr_probe", [s, table_for([s])], "nmap_cidr_probe")
     for s in specs:
         if "/" not in s and ":" not in s:
             for t in s.split("."):
